@@ -328,3 +328,98 @@ Proof.
   inversion H; subst opts. destruct (write_then_load _ _ _ _ (mkdict_nodup kw) Hu) as [acc Hacc].
   exists d, ps, acc. split; [reflexivity|exact Hacc].
 Qed.
+
+(* ---------- Python str(int) / int(str) round trip (used when an integer is given for a string parameter and
+              when integers travel through the command line) ---------- *)
+From Coq Require Import ZifyBool.
+Lemma digits_of_S f n acc : digits_of (S f) n acc =
+  if n <? 10 then (48 + n mod 10) :: acc else digits_of f (n / 10) ((48 + n mod 10) :: acc).
+Proof. reflexivity. Qed.
+Lemma digits_of_spec : forall f n acc, 0 <= n < 2 ^ Z.of_nat (S f) ->
+  exists ds, digits_of (S f) n acc = ds ++ acc /\ ds <> [] /\ Forall (fun c => is_digit c = true) ds /\
+             forall a rest, digits_val a (ds ++ rest) = digits_val (a * 10 ^ Z.of_nat (length ds) + n) rest.
+Proof.
+  induction f as [|f IH]; intros n acc Hn.
+  - assert (Hlt : n < 10) by (change (2 ^ Z.of_nat 1) with 2 in Hn; lia).
+    exists [48 + n mod 10]. rewrite digits_of_S. apply Z.ltb_lt in Hlt as Hb. rewrite Hb.
+    rewrite Z.mod_small by lia. repeat split.
+    + discriminate.
+    + constructor; [unfold is_digit; lia|constructor].
+    + intros a rest. cbn [app digits_val length]. unfold is_digit.
+      replace ((48 <=? 48 + n) && (48 + n <=? 57)) with true by lia.
+      f_equal. change (Z.of_nat 1) with 1. lia.
+  - rewrite digits_of_S. destruct (n <? 10) eqn:Hb.
+    + exists [48 + n mod 10]. rewrite Z.mod_small by lia. repeat split.
+      * discriminate.
+      * constructor; [unfold is_digit; lia|constructor].
+      * intros a rest. cbn [app digits_val length]. unfold is_digit.
+        replace ((48 <=? 48 + n) && (48 + n <=? 57)) with true by lia.
+        f_equal. change (Z.of_nat 1) with 1. lia.
+    + assert (Hq : 0 <= n / 10 < 2 ^ Z.of_nat (S f)).
+      { rewrite Nat2Z.inj_succ, Z.pow_succ_r in Hn by lia. split; [apply Z.div_pos; lia|].
+        apply Z.div_lt_upper_bound; lia. }
+      destruct (IH (n / 10) ((48 + n mod 10) :: acc) Hq) as (ds & Hds & Hne & Hall & Hval).
+      exists (ds ++ [48 + n mod 10]). repeat split.
+      * rewrite Hds, <- app_assoc. reflexivity.
+      * destruct ds; discriminate.
+      * apply Forall_app. split; [exact Hall|]. constructor; [|constructor].
+        unfold is_digit. pose proof (Z.mod_pos_bound n 10). lia.
+      * intros a rest. rewrite <- app_assoc. rewrite Hval. cbn [app digits_val]. unfold is_digit.
+        pose proof (Z.mod_pos_bound n 10 ltac:(lia)) as Hm.
+        replace ((48 <=? 48 + n mod 10) && (48 + n mod 10 <=? 57)) with true by lia.
+        f_equal. rewrite app_length. cbn [length]. rewrite Nat2Z.inj_add. change (Z.of_nat 1) with 1.
+        rewrite Z.pow_add_r by lia. change (10 ^ 1) with 10.
+        pose proof (Z.div_mod n 10 ltac:(lia)). lia.
+Qed.
+
+Lemma print_nat_spec n : 0 <= n -> exists ds, print_nat n = ds /\ ds <> [] /\ Forall (fun c => is_digit c = true) ds /\
+  digits_val 0 ds = Some n.
+Proof.
+  intros Hn. unfold print_nat.
+  assert (Hb : 0 <= n < 2 ^ Z.of_nat (S (Z.to_nat (Z.log2 n)))).
+  { split; [exact Hn|]. rewrite Nat2Z.inj_succ, Z2Nat.id by apply Z.log2_nonneg.
+    destruct (Z.eq_dec n 0) as [->|Hz]; [cbn; lia|]. apply Z.log2_spec. lia. }
+  destruct (digits_of_spec _ n [] Hb) as (ds & Hds & Hne & Hall & Hval).
+  exists ds. rewrite app_nil_r in Hds. repeat split; try assumption.
+  specialize (Hval 0 []). rewrite app_nil_r in Hval. rewrite Hval. cbn [digits_val]. f_equal; lia.
+Qed.
+
+Lemma digit_not_ws c : is_digit c = true -> is_ws c = false.
+Proof. unfold is_digit, is_ws. lia. Qed.
+Lemma lstrip_nonws c t : is_ws c = false -> lstrip (c :: t) = c :: t.
+Proof. intros H. cbn [lstrip]. rewrite H. reflexivity. Qed.
+Lemma strip_id t : (forall c r, t = c :: r -> is_ws c = false) -> (forall l d, t = l ++ [d] -> is_ws d = false) -> strip t = t.
+Proof.
+  intros H1 H2. unfold strip.
+  assert (Hl : lstrip t = t) by (destruct t as [|c r]; [reflexivity|apply lstrip_nonws; eapply H1; reflexivity]).
+  rewrite Hl. destruct (rev t) as [|d r] eqn:E.
+  - cbn. rewrite <- (rev_involutive t), E. reflexivity.
+  - assert (Ht : t = rev r ++ [d]) by (rewrite <- (rev_involutive t), E; reflexivity).
+    rewrite (lstrip_nonws d r (H2 _ _ Ht)). rewrite <- E. apply rev_involutive.
+Qed.
+Lemma strip_digits_like (c0 : Z) ds : is_ws c0 = false -> Forall (fun c => is_digit c = true) ds -> ds <> [] ->
+  strip (c0 :: ds) = c0 :: ds /\ strip ds = ds.
+Proof.
+  intros Hc Hall Hne. split; apply strip_id.
+  - intros c r E. injection E as <- _. exact Hc.
+  - intros l d E. destruct (exists_last Hne) as (l' & d' & ->).
+    change (c0 :: l' ++ [d']) with ((c0 :: l') ++ [d']) in E. apply app_inj_tail in E as [_ <-].
+    apply digit_not_ws. apply Forall_app in Hall as [_ Hd]. inversion Hd; assumption.
+  - intros c r E. subst ds. apply digit_not_ws. inversion Hall; assumption.
+  - intros l d E. subst ds. apply digit_not_ws. apply Forall_app in Hall as [_ Hd]. inversion Hd; assumption.
+Qed.
+
+Theorem parse_print_int z : parse_int (print_int z) = Some z.
+Proof.
+  unfold print_int, parse_int. destruct (z <? 0) eqn:Hz.
+  - destruct (print_nat_spec (- z) ltac:(lia)) as (ds & -> & Hne & Hall & Hval).
+    destruct (strip_digits_like 45 ds eq_refl Hall Hne) as [-> _].
+    cbn [split_sign]. change (45 =? 45) with true. cbv iota. unfold parse_nat.
+    destruct ds as [|d ds]; [contradiction|]. rewrite Hval. f_equal. lia.
+  - destruct (print_nat_spec z ltac:(lia)) as (ds & -> & Hne & Hall & Hval).
+    destruct (strip_digits_like 45 ds eq_refl Hall Hne) as [_ ->].
+    destruct ds as [|d ds]; [contradiction|]. cbn [split_sign].
+    assert (Hd : is_digit d = true) by (inversion Hall; assumption). unfold is_digit in Hd.
+    replace (d =? 45) with false by lia. replace (d =? 43) with false by lia.
+    unfold parse_nat. rewrite Hval. reflexivity.
+Qed.
